@@ -519,6 +519,13 @@ func (x *Unit) verifyOnce() (res *UnitResult) {
 			cond := env.boolOf(en.Expr)
 			x.obligeBy(en.By, normal, "post", en.Label, en.Tags, cond, en.Src, x.FU.Body)
 		}
+		// callers (and loops around calls) keep their lock state across a call: every unit under contract that touches a lock
+		// must return with the lock state it was entered with
+		if x.pass != 1 {
+			if _, ok := x.compSorts["$nlocks"]; ok && !c.NoCheck && !c.Pure {
+				x.oblige(normal, "locknest", "locks_balanced_at_exit", x.concTagsLock(), Eq(x.get(normal, "$nlocks"), x.initial("$nlocks", 0)), "the function returns holding exactly the locks it was entered with", x.FU.Body)
+			}
+		}
 		if len(c.Panics) > 0 || c.NoPanic {
 			for _, en := range c.Panics {
 				env := x.unitEnv(panicking, nil)
